@@ -67,7 +67,7 @@ KERNELS = {
 SINGLE_PASS = ("ssb", "prlx", "icom")
 ABERR = ["none", "defocus", "astig", "third"]
 SUBMASKS = ["checkerboard", "half_rows", "half_cols", "random"]
-FAMILIES = ["random", "structured", "sparse"]
+FAMILIES = ["random", "structured", "sparse", "dead"]
 ENERGIES = [60e3, 80e3, 200e3, 300e3]
 
 
@@ -157,8 +157,15 @@ def _construction_mask(rng, crop):
 
 
 def _stack(rng, family, nbf, sx, sy):
-    if family == "random":
+    if family in ("random", "dead"):
         x = rng.normal(size=(nbf, sx, sy)) * rng.uniform(0.05, 0.5) + 1.0
+        if family == "dead":
+            # dead / saturated detector pixels: some virtual images are exactly flat (zero spectrum once the mean is removed)
+            k = int(rng.integers(1, max(2, nbf // 3 + 1)))
+            for i in rng.choice(nbf, size=min(k, nbf - 2), replace=False):
+                x[i] = 0.0 if rng.random() < 0.6 else float(rng.uniform(0.5, 2.0))
+            if rng.random() < 0.5:
+                x[:2] = 0.0  # two adjacent flat images: a streamed batch made only of flat images for batch sizes 1 and 2
     elif family == "structured":
         u = np.arange(sx)[:, None] / sx
         v = np.arange(sy)[None, :] / sy
